@@ -93,6 +93,11 @@ func genC09(tier string, r *rng, emit func(string)) {
 			emit(fmt.Sprintf("prog %s %s", dt, c))
 		}
 	}
+	// negative contraction axes: refused (the index check comes first) - and the caller's axes lists
+	// are never written to
+	for _, c := range []string{"new:rm:2,3,4:1;new:rm:4,3,2:2;tmul:0:1:-1,1:-3,1", "new:rm:2,3:1;new:rm:3,2:2;tmul:0:1:-1:0", "new:rm:2,3:1;new:rm:3,2:2;tmul:0:1:1:-2"} {
+		emit("prog f64 " + c)
+	}
 	// inner dimensions and lengths around the block sizes of unrolled / vectorised loops
 	for _, dt := range []string{"f64", "f32"} {
 		for _, k := range []int{1, 2, 3, 4, 5, 7, 8, 9, 15, 16, 17, 31, 32, 33} {
